@@ -189,7 +189,8 @@ def discover():
 # ------------------------------------------------------------------ wrappers
 def vector(rec: Rec, dim=None):
     from skfem import ElementVector
-    return Rec(name=f"Vector({rec.name})", make=lambda: ElementVector(rec.make(), dim) if dim else ElementVector(rec.make()),
+    return Rec(name=f"Vector({rec.name}" + (f",dim={dim})" if dim else ")"),
+               make=lambda: ElementVector(rec.make(), dim) if dim else ElementVector(rec.make()),
                kind=rec.kind, family="h1vec", conforming=rec.conforming, nonconforming=rec.nonconforming,
                complete=rec.complete, tensor_complete=rec.tensor_complete, nodal=False, pou="none",
                mesh_req=rec.mesh_req, vector_valued=True, facet_basis=rec.facet_basis, cls=None)
@@ -248,6 +249,10 @@ def all_for_kind(kind, wrappers=True):
                     "ElementHex1", "ElementHexS2", "ElementWedge1"):
                 if kind != "line":
                     out.append(vector(r))
+            # vector wrappers whose number of components differs from the spatial dimension
+            if r.name in ("ElementLineP2", "ElementTriP2", "ElementTriCR", "ElementQuad2", "ElementTetP2", "ElementHex2",
+                          "ElementHexS2", "ElementWedge1"):
+                out.append(vector(r, {"line": 2, "tri": 3, "quad": 3, "tet": 2, "hex": 2, "wedge": 2}[kind]))
             if r.name in ("ElementLineP2", "ElementTriP2", "ElementTriRT1", "ElementTriP1B", "ElementQuad2", "ElementTetP2",
                           "ElementTetN1", "ElementHex2", "ElementHexS2", "ElementTriP3"):
                 out.append(dg(r))
